@@ -199,21 +199,24 @@ def ob_errors(timeout_ms):
     """(e): the documented error for each malformed argument combination."""
     tally = Tally()
     out = base_out("errors")
-    pop = ["a", "b"]
-    # concrete malformed calls: every path must end in the documented error
-    cases = [
-        ("wrong length (short)", [pop, [1.0]], {}, "ValueError"),
-        ("wrong length (long)", [pop, [1.0, 2.0, 3.0]], {}, "ValueError"),
-        ("wrong length cum", [pop], {"cum_weights": [1.0]}, "ValueError"),
-        ("both kinds", [pop, [1.0, 1.0]], {"cum_weights": [1.0, 2.0]}, "TypeError"),
-        ("both kinds, tuples", [tuple(pop), (1, 1)], {"cum_weights": (1, 2)}, "TypeError"),
-        ("zero total", [pop, [0.0, 0.0]], {}, "ValueError"),
-        ("zero int total", [pop, [0, 0]], {}, "ValueError"),
-        ("negative total", [pop, [1.0, -2.0]], {}, "ValueError"),
-        ("infinite total", [pop, [1.0, float("inf")]], {}, "ValueError"),
-        ("nan total", [pop, [1.0, float("nan")]], {}, "ValueError"),
-        ("negative cum total", [pop], {"cum_weights": [-1.0, -0.5]}, "ValueError"),
-    ]
+    cases = []
+    for pop in (["a", "b"], ["only"], ("x", "y", "z"), ["a", "b", "c", "d", "e"]):
+        n = len(pop)
+        tag = "n=%d %s" % (n, type(pop).__name__)
+        ws = lambda v: type(pop)([v] * n) if isinstance(pop, tuple) else [v] * n
+        cases += [
+            ("wrong length (short) " + tag, [pop, [1.0] * (n - 1) if n > 1 else []], {}, "ValueError"),
+            ("wrong length (long) " + tag, [pop, [1.0] * (n + 1)], {}, "ValueError"),
+            ("wrong length cum " + tag, [pop], {"cum_weights": [float(i + 1) for i in range(n + 1)]}, "ValueError"),
+            ("both kinds " + tag, [pop, [1.0] * n], {"cum_weights": [float(i + 1) for i in range(n)]}, "TypeError"),
+            ("zero total " + tag, [pop, [0.0] * n], {}, "ValueError"),
+            ("zero int total " + tag, [pop, [0] * n], {}, "ValueError"),
+            ("negative total " + tag, [pop, [1.0] * (n - 1) + [-2.0 * n]], {}, "ValueError"),
+            ("infinite total " + tag, [pop, [1.0] * (n - 1) + [float("inf")]], {}, "ValueError"),
+            ("nan total " + tag, [pop, [1.0] * (n - 1) + [float("nan")]], {}, "ValueError"),
+            ("non-positive cum total " + tag, [pop], {"cum_weights": [float(i - n) for i in range(n)]}, "ValueError"),
+            ("infinite cum total " + tag, [pop], {"cum_weights": [float(i) for i in range(n - 1)] + [float("inf")]}, "ValueError"),
+        ]
     for name, args, kwargs, exc in cases:
         uid = SStr(z3.String("input_id"))
 
@@ -238,14 +241,37 @@ def ob_errors(timeout_ms):
                                                  {"raises": [exc]}, "%s: expected %s, got %r" % (name, exc, p.outcome)))
     # symbolic totals: ValueError exactly when total <= 0 or not finite (two symbolic binary64 weights);
     # the search below the checks is cut (bisect stubbed) -- it is not part of this obligation
+    pop = ["a", "b"]
     w0, w1 = SFP(z3.FP("w0", FP64)), SFP(z3.FP("w1", FP64))
     uid = SStr(z3.String("input_id"))
+    # population of one, one symbolic weight
+    def setup1(it):
+        it.call_overrides["pyab_experiment.binning.binning:deterministic_proba"] = C12.proba_recorder
+        it.call_overrides["bisect.bisect_right"] = lambda ctx, interp, a, k: 0
+    run1 = api.run(api.call_module_function(BINNING, "deterministic_choice", [uid, ["only"], [w0]], {}),
+                   opts={"float_mode": "fp", "prune": False}, setup=setup1)
+    absorb(out, run1)
+    total1 = z3.fpAdd(z3.RNE(), w0.term, fp_const(0.0))
+    bad1 = z3.Or(z3.fpLEQ(total1, fp_const(0.0)), z3.fpIsNaN(total1), z3.fpIsInf(total1))
+    for p in run1.paths:
+        if unsup(out, p, tally, timeout_ms):
+            continue
+        is_ve = isinstance(p.outcome, Raise) and p.outcome.exc_name == "ValueError"
+        r, m = common.check(tally, list(p.conds) + [z3.Not(bad1) if is_ve else bad1], timeout_ms,
+                            label="C16(e) ValueError <=> total <= 0 or non-finite (one symbolic weight, population of one)")
+        note_unknown(out, r)
+        if r == "sat":
+            wv = [harness.fp_model_value(m.eval(w0.term, model_completion=True))]
+            out["witnesses"].append(w_choice(["u", ["only"], wv], {}, 0,
+                                             {"not_raises": True} if is_ve else {"raises": ["ValueError"]},
+                                             "population of one, weights %r: %s" % (wv, "ValueError although the total is positive "
+                                                                                    "and finite" if is_ve else "no ValueError although the total is not positive/finite")))
 
     def setup2(it):
         it.call_overrides["pyab_experiment.binning.binning:deterministic_proba"] = C12.proba_recorder
         it.call_overrides["bisect.bisect_right"] = lambda ctx, interp, a, k: 0
     run = api.run(api.call_module_function(BINNING, "deterministic_choice", [uid, pop, [w0, w1]], {}),
-                  opts={"float_mode": "fp", "prune": False}, setup=setup2)
+                  opts={"float_mode": "fp", "prune": False}, setup=setup2)  # population of two
     absorb(out, run)
     total = z3.fpAdd(z3.RNE(), z3.fpAdd(z3.RNE(), w0.term, w1.term), fp_const(0.0))
     bad = z3.Or(z3.fpLEQ(total, fp_const(0.0)), z3.fpIsNaN(total), z3.fpIsInf(total))
